@@ -20,6 +20,38 @@ fn emit_case(rng: &mut Prng, emit: &mut dyn FnMut(Value), max_rules: usize) {
     emit(json!({"cfg": cfg, "rules": rules, "reqs": reqs}));
 }
 
+/// A case that exercises one layer only: the rules differ in the triggers of that layer, every other
+/// trigger is absent (path fixed), so the layer alone decides which rules match.
+fn emit_focus_case(rng: &mut Prng, emit: &mut dyn FnMut(Value)) {
+    const FOCI: [&[&str]; 7] =
+        [&["scheme"], &["host"], &["ips"], &["methods", "exclude"], &["headers"], &["datetime", "time", "weekdays"], &["path"]];
+    let focus = FOCI[rng.below(FOCI.len())];
+    let cfg = gen_cfg(rng);
+    let n = rng.range(2, 6);
+    let mut rules = Vec::new();
+    for i in 0..n {
+        let id = format!("f{i}");
+        // draw until the focused trigger is present
+        let mut r = gen_rule(rng, &id);
+        for _ in 0..20 {
+            if focus.iter().any(|k| r.get(*k).is_some()) {
+                break;
+            }
+            r = gen_rule(rng, &id);
+        }
+        let o = r.as_object_mut().unwrap();
+        let keep: Vec<String> = o.keys().filter(|k| ["id", "rank", "markers", "path"].contains(&k.as_str()) || focus.contains(&k.as_str())).cloned().collect();
+        o.retain(|k, _| keep.contains(k));
+        if focus != ["path"] {
+            o.insert("path".into(), json!("/a"));
+        }
+        rules.push(r);
+    }
+    let nq = rng.range(3, 6);
+    let reqs: Vec<Value> = (0..nq).map(|_| gen_request(rng, &rules)).collect();
+    emit(json!({"cfg": cfg, "rules": rules, "reqs": reqs}));
+}
+
 /// The "bucket collision" pool of the thorough tier: six rules that share buckets in every layer.
 fn collision_pool() -> Vec<Value> {
     vec![
@@ -85,6 +117,10 @@ fn gen(args: &Args, emit: &mut dyn FnMut(Value)) {
         }
     }
     for i in 0..args.n {
+        if i % 5 == 4 {
+            emit_focus_case(&mut rng, emit);
+            continue;
+        }
         let max_rules = if i % 4 == 0 { 4 } else { 12 };
         emit_case(&mut rng, emit, max_rules);
     }
